@@ -30,7 +30,7 @@ def c17_compare(chk, case, o):
         return
     if got in ("timeout", "crash"):
         where = {"split": "Split", "replace": "ReplaceFree" if case["a2"] == [] else "Replace",
-                 "join": "Join", "starts": "StartsWith"}[op]
+                 "join": "Join", "joinitems": "Join", "starts": "StartsWith"}[op]
         chk.diverge(where, got, wit, "spec: call returns (%s); implementation: %s (%s)" % (exp, got, o.get("why")))
         return
     if exp == "free":
@@ -40,7 +40,7 @@ def c17_compare(chk, case, o):
             chk.diverge("SplitRaise", got if got != "raise" else o.get("cls"), wit,
                         "spec: empty needle raises the library exception; implementation: %s" % got)
         return
-    where = {"split": "Split", "replace": "Replace", "join": "Join", "starts": "StartsWith"}[op]
+    where = {"split": "Split", "replace": "Replace", "join": "Join", "joinitems": "Join", "starts": "StartsWith"}[op]
     if got != "ok":
         chk.diverge(where, got, wit, "spec: ok %s; implementation: %s %s" % (case["out"], got, o.get("cls")))
         return
@@ -78,7 +78,7 @@ def c17_random(rng, n):
         return b"".join(rng.choice(alph) for _ in range(min(k, maxlen)))
     cases = []
     for _ in range(n):
-        op = rng.choice(["split", "replace", "replace", "join", "join", "starts"])
+        op = rng.choice(["split", "replace", "replace", "join", "join", "starts", "joinitems"])
         small = alpha[:4] if rng.random() < 0.7 else alpha
         if op == "split":
             hay = rs(40, small)
@@ -95,6 +95,19 @@ def c17_random(rng, n):
             if rng.random() < 0.3:
                 rep = pat + rep if rng.random() < 0.5 else rep + pat + rep   # pattern contained in replacement
             cases.append(dict(op=op, a1=b(s), a2=b(pat), a3=b(rep)))
+        elif op == "joinitems":
+            items = []
+            for _ in range(rng.randint(0, 6)):
+                t = rng.choice("ssiihj")
+                if t == "s":
+                    items.append(dict(t="s", v=b(rs(4, small)) if rng.random() < 0.7 else []))
+                elif t == "i":
+                    items.append(dict(t="i", v=rng.choice([0, 7, 10, 11, 255, 300, -12, 65535])))
+                elif t == "h":
+                    items.append(dict(t="h", v=rng.choice([0, 9, 10, 255, 4096])))
+                else:
+                    items.append(dict(t="j", v=[b(rs(3, small)) if rng.random() < 0.8 else [] for _ in range(rng.randint(0, 3))]))
+            cases.append(dict(op=op, a1=items, a2=b(rng.choice([b" ", b",", b", ", b"", b";"])), a3=[]))
         elif op == "join":
             k = rng.randint(0, 6)
             el = [b(rs(4, small)) if rng.random() < 0.7 else [] for _ in range(k)]
@@ -167,11 +180,11 @@ def run_c17(chk, replay):
         if o.get("outcome") in ("timeout", "crash") or c2["outcome"] != "ok":
             c17_compare(chk, c2, o)
         if len(chk.divergences) == before:
-            where = {"split": "Split", "replace": "Replace", "join": "Join", "starts": "StartsWith"}[c["op"]]
+            where = {"split": "Split", "replace": "Replace", "join": "Join", "joinitems": "Join", "starts": "StartsWith"}[c["op"]]
             chk.diverge(where, "wrong-result" if o.get("outcome") == "ok" else str(o.get("outcome")),
                         dict(op=c["op"], a1=c["a1"], a2=c["a2"], a3=c["a3"]),
                         "recorded call rejected by StringsTrace at event %d (%s): %s(%r,%r,%r) -> %r" % (
-                            matched, why, c["op"], _s(c["a1"]), _s(c["a2"]), _s(c["a3"]), _s(o.get("out"))), artefact=path)
+                            matched, why, c["op"], (c["a1"] if c["op"] == "joinitems" else _s(c["a1"])), _s(c["a2"]), _s(c["a3"]), _s(o.get("out"))), artefact=path)
     chk.sample(dict(kind="code->spec event", event=execs[0][0][2]))
     chk.assumptions += ["libstdc++ std::string semantics", "sanitizer build behaves like a plain build apart from detection",
                         "a call that does not return within 5 s is a hang"]
